@@ -236,7 +236,7 @@ func checkC08(e *RunEnv) *CheckResult {
 			{"percent-dir", append(seedS1(), Write("p%sq/x", "x v1\n"), Write("é/y z", "y\n"), Run("add", "p%sq", "é"), Run("commit", "-m", "c2"), Write("p%sq/x", "x v2\n"), Run("add", "p%sq"), Run("commit", "-m", "c3"))},
 			{"new-dir-later", append(seedS1(), Write("d2/p", "p\n"), Write("d2/q/r", "r\n"), Run("add", "d2"), Run("commit", "-m", "c2 introduces d2"), Write("d2/never-tracked", "nt\n"), Write("d2/q/never-tracked", "nt\n"))},
 			{"deep-dir", append(seedS1(), Write("lib/core/util/a.txt", "a1\n"), Write("lib/z.txt", "z1\n"), Write("lib/empty", ""), Write("lib/core/__init__", ""), Write("empty-top", ""), Run("add", "lib", "empty-top"), Run("commit", "-m", "c2"), Write("lib/core/util/a.txt", "a2\n"), Run("add", "lib"), Run("commit", "-m", "c3"))}},
-		Depth: e.pick(3, 5),
+		Depth: e.depth(3, 5),
 		Steps: func(n *Node) []Step {
 			a := n.Abs()
 			t := unionTags(stateTags(a), journalTags(a))
